@@ -226,3 +226,40 @@ PROPS["C08"] = {
         Leg("cell", "c08", "^TestCell$", checks=(60000, 500000), shards=(2, 16), tests=["cell"]),
     ],
 }
+
+_TIME_ASSUME = ["calendar model: week starts at Sunday 00:00:00 UTC -18 s (GPS, Galileo), -4 s (BeiDou), -3 h (GLONASS, Moscow days), as the property states; integer arithmetic on Unix ms",
+                "times are read back from SentAt / StartOfWeek with the exported utils.DateLayout", "Go toolchain, rapid v1.3.0"]
+
+PROPS["C06"] = {
+    "title": "MSM timestamps are converted to the true UTC time across week rollovers",
+    "level": "exploration",
+    "technique": "property-based testing (rapid) of generated time histories (stateful: one handler per history) against an independent calendar model",
+    "level_text": ("Generated-history exploration against a calendar model: start times anywhere in 1990-2060 (ns resolution, 9 zones, half of them within 30 s of a "
+                   "constellation's rollover), per-constellation non-decreasing observation sequences crossing 0..n rollovers with gaps up to just under 6 days, "
+                   "interleaved over GPS/Galileo/GLONASS/BeiDou and MSM4/MSM7, illegal timestamps inserted anywhere; fed frame by frame through GetMessage and, for a "
+                   "quarter of the histories, as one stream through HandleMessages. Every reported time and week start must equal the model's. Histories are sampled."),
+    "rule": ("Cases: (start instant, zone, log level, frame-by-frame or stream, merged list of observations {constellation, true time | illegal timestamp, MSM4/7}) with each "
+             "constellation's first observation in [T, end of T's week). Non-trivial = the history crosses at least one week rollover and interleaves at least two "
+             "constellations; distinct = distinct case hash."),
+    "assumptions": _TIME_ASSUME,
+    "min_evals": {"quick": 5000, "thorough": 300000},
+    "legs": [
+        Leg("history", "c06", "^TestHistory$", checks=(4000, 30000), shards=(2, 16), tests=["history"]),
+    ],
+}
+
+PROPS["C17"] = {
+    "title": "Any start time within the week of the first observation gives correct times",
+    "level": "exploration",
+    "technique": "property-based testing (rapid) of generated time histories whose start time lies anywhere in the first observation's constellation week, against the same calendar model",
+    "level_text": ("Generated-history exploration as C06, but the handler's start time is drawn anywhere in the constellation week of the first observation - before, "
+                   "equal to, moments after or days after it - for all four constellations, followed by a C06-style continuation across rollovers."),
+    "rule": ("Cases as C06 with each constellation's first observation anywhere in T's constellation week (start of week, end of week, T itself, up to 5 s before T, "
+             "uniform). Non-trivial = crosses a rollover and interleaves two constellations; class first-obs-before-T/non-glonass counts the histories the statement singles out; "
+             "distinct = distinct case hash."),
+    "assumptions": _TIME_ASSUME,
+    "min_evals": {"quick": 5000, "thorough": 300000},
+    "legs": [
+        Leg("history", "c17", "^TestHistory$", checks=(4000, 30000), shards=(2, 16), tests=["history"]),
+    ],
+}
